@@ -7,6 +7,7 @@ type contextValue int
 const (
 	publishObserved contextValue = iota
 	subscribeObserved
+	handleObserved
 )
 
 // setPublishObservedToCtx is used to achieve metrics idempotency in case of double applied middleware
@@ -25,4 +26,13 @@ func setSubscribeObservedToCtx(ctx context.Context) context.Context {
 
 func subscribeAlreadyObserved(ctx context.Context) bool {
 	return ctx.Value(subscribeObserved) != nil
+}
+
+func setHandleObservedToCtx(ctx context.Context, observed bool) context.Context {
+	return context.WithValue(ctx, handleObserved, observed)
+}
+
+func handleAlreadyObserved(ctx context.Context) bool {
+	observed, ok := ctx.Value(handleObserved).(bool)
+	return ok && observed
 }
